@@ -173,6 +173,10 @@ func runC15(ctx *Ctx) error {
 	for i := 0; i < n; i++ {
 		call, pass := r.c15Cred(i%3), r.c15Cred((i/3)%3)
 		payload := r.Bytes(r.Intn(200))
+		if r.Intn(3) == 0 {
+			// payload that begins like the tail of a line ending
+			payload = append([]byte([]string{"\n", "\r", "\r\n", " ", "\x00", "\n\n"}[r.Intn(6)]), payload...)
+		}
 		var pre, mid []string
 		garbage := func() string {
 			switch r.Intn(4) {
@@ -288,6 +292,9 @@ func runC15(ctx *Ctx) error {
 	for i := 0; i < n; i++ {
 		call, pass := r.c15Cred(i%3), r.c15Cred((i/3)%3)
 		payload := r.Bytes(r.Intn(200))
+		if r.Intn(3) == 0 {
+			payload = append([]byte([]string{"\n", "\r", "\r\n", " ", "\x00", "\n\n"}[r.Intn(6)]), payload...)
+		}
 		stream := append([]byte(call+"\r"+pass+"\r"), payload...)
 		mode := r.Intn(3) // 0 one write; 1 random pieces; 2 wait for each prompt, payload coalesced with the password
 		desc := fmt.Sprintf("C call=%q pass=%q mode=%d payload=%d", call, pass, mode, len(payload))
